@@ -2,8 +2,10 @@
    "The metadata store answers exactly what authentic, current metadata says."
    [cur] = the code as it is now (after d8b1d2a4, 18964551, fafdf54c, 254349bd, a8da97db, ab8ae013); [v0] = before them. *)
 From Coq Require Import String List Bool ZArith.
-From Verif Require Import Base.Str C11.Model C11.Dec C11.Spec C11.Proofs C11.Lookup C11.Sim C11.Facts.
+From Verif Require Import Base.Str Base.Py Base.Py2 C11.Model C11.Dec C11.Spec C11.Proofs C11.Lookup C11.Sim C11.Facts C11.Source2.
+From VerifGen Require Import C11Src2.
 Import ListNotations.
+Open Scope list_scope.
 
 (* ---- the main theorem: on EVERY history (loads, reloads, MDQ fetches, clock ticks, server changes, queries;
    any documents, any signature states, any server answers, any failure positions) the model's outputs are the
@@ -270,3 +272,86 @@ Theorem c11_witnesses_conform_now :
           [witness1; witness2; witness3; witness4; witness4b; witness5; witness6; witness7] = true.
 Proof. exact witnesses_conform_now. Qed.
 Print Assumptions c11_witnesses_conform_now.
+
+(* ==== source tie, translator v2 (C11/Source2.v): functions of src/saml2/mdstore.py as harness/py2coq2.py translated them
+   from the CURRENT source text on this run (coq/gen/C11Src2.v) compute what the hand-written model computes, for every
+   input of the model's domain.  External calls (time_util.valid / before, mdie.to_dict, repack_cert, _fetch_metadata,
+   imp) are the quantified functions and their hypotheses. *)
+
+(* InMemoryMetaData.do_entity_descriptor = Model.do_entity: validUntil (when validity is checked; the id goes to to_old),
+   duplicate entityID, SAML 2.0 filter per kind with the enumeration rewritten, flag; no entity filter configured *)
+Theorem c11_source2_do_entity_descriptor : forall now (valid to_dict filter_ : pyval -> pyval),
+  (forall vu, valid (enc_vu vu) = PBool (negb (expired now vu))) ->
+  (forall e, to_dict (enc_descr e) = enc_ent e) ->
+  forall cv m told e,
+  ids_ok m -> e_id e <> "__class__"%string -> Forall protos_wf (e_roles e) -> kinds_ok e ->
+  src2_do_entity_descriptor valid to_dict filter_ (enc_self cv m told) (enc_descr e)
+  = PList [PNone; enc_self cv (do_entity cv now m e)
+                           (if cv && expired now (e_vu e) then told ++ [PStr (e_id e)] else told)].
+Proof. exact src2_do_entity_descriptor_is_model. Qed.
+Print Assumptions c11_source2_do_entity_descriptor.
+
+(* MetaData.certs / extract_certs = Model.extract_certs: KeyDescriptors without use or with the asked use, in order *)
+Theorem c11_source2_extract_certs : forall (repack_cert : pyval -> pyval) (rp : string -> string) use,
+  (forall s, repack_cert (PStr s) = PStr (rp s)) ->
+  forall rs, certs_ok rs ->
+  src2_extract_certs repack_cert (PStr use) (PList (map enc_role rs)) = PList (map (cert_item rp) (extract_certs use rs)).
+Proof. exact src2_extract_certs_is_model. Qed.
+Print Assumptions c11_source2_extract_certs.
+
+(* MetaDataMDX._is_metadata_fresh: expiration_date[item] (KeyError when missing) judged by time_util.before *)
+Theorem c11_source2_is_metadata_fresh : forall now (before : pyval -> pyval),
+  (forall t, before (PInt t) = PBool (now <=? t)%Z) ->
+  forall x e, exp_ok (x_exp x) ->
+  src2_is_fresh before (enc_mdx x) (PStr e)
+  = match lookup e (x_exp x) with Some t => PBool (now <=? t)%Z | None => PExc "KeyError" end.
+Proof. exact src2_is_fresh_is_model. Qed.
+Print Assumptions c11_source2_is_metadata_fresh.
+
+(* MetaDataMDX.__getitem__ = the decision part of Model.mdx_get: cached and fresh -> served; no expiration date ->
+   KeyError; unknown -> fetched; stale -> popped first, then fetched from the state WITHOUT the entry *)
+Theorem c11_source2_mdx_getitem : forall now (before : pyval -> pyval) (fetch : pyval -> pyval -> pyval),
+  (forall t, before (PInt t) = PBool (now <=? t)%Z) ->
+  forall x e, ids_ok (x_ents x) -> NoDup (map fst (x_ents x)) -> exp_ok (x_exp x) ->
+  src2_mdx_getitem fetch (src2_is_fresh before) (enc_mdx x) (PStr e)
+  = match mdx_decide now x e with
+    | DCached en => PList [enc_ent en; enc_mdx x]
+    | DNoExp => PList [PExc "KeyError"; enc_mdx x]
+    | DFetch x' => ret (fetch (enc_mdx x') (PStr e)) (enc_mdx x')
+    end.
+Proof. exact src2_mdx_getitem_is_model. Qed.
+Print Assumptions c11_source2_mdx_getitem.
+
+Theorem c11_source2_mdx_get_decide : forall fl now srv x e,
+  mdx_get fl x now srv e = match mdx_decide now x e with
+                           | DCached en => (x, ROk en)
+                           | DNoExp => (x, RKeyErr)
+                           | DFetch x' => mdx_fetch fl x' now srv e
+                           end.
+Proof. exact mdx_get_decide. Qed.
+Print Assumptions c11_source2_mdx_get_decide.
+
+(* MetadataStore.__getitem__ = Model.store_get over static sources: the first configured source that has the entity *)
+Theorem c11_source2_store_getitem : forall fl now srv l e,
+  Forall (fun km => ids_ok (snd km)) l ->
+  src2_store_getitem (enc_store l) (PStr e) = enc_res (snd (store_get fl now srv (static_sources l) e)).
+Proof. exact src2_store_getitem_is_model. Qed.
+Print Assumptions c11_source2_store_getitem.
+
+(* MetadataStore.reload: imp runs on an empty metadata dict; when it raises, the old dict is put back and the same
+   exception goes on (Model.reload keeps st_srcs st) *)
+Theorem c11_source2_reload : forall (imp : pyval -> pyval -> pyval) md ii spec,
+  is_bad md = false -> is_bad spec = false ->
+  src2_reload imp (store_obj md ii) spec
+  = match imp (store_obj (PObj []) ii) spec with
+    | PExc n => PList [PExc n; store_obj md ii]
+    | PErr => PErr
+    | _ => PList [PNone; store_obj (PObj []) ii]
+    end.
+Proof. exact src2_reload_is_model. Qed.
+Print Assumptions c11_source2_reload.
+
+(* InMemoryMetaData.signed = Model.payload_signed *)
+Theorem c11_source2_signed : forall p sg, src2_signed (enc_parsed p sg) = PBool (payload_signed p sg).
+Proof. exact src2_signed_is_model. Qed.
+Print Assumptions c11_source2_signed.
